@@ -87,6 +87,22 @@ def env():
     import atexit
     import shutil
     import tempfile
+    # the clock `dateArchived` is stamped with (datetime.now, looked up in sqlobject.versioning when a versioned class
+    # is declared) is under the harness's control: it may run forwards, stand still or run BACKWARDS (DST fall-back,
+    # clock correction); the order of `obj.versions` must not depend on it
+    import datetime as _dt
+    from sqlobject import versioning as _versioning
+
+    class FakeClock(object):
+        step = [1]
+        t = [_dt.datetime(2026, 10, 25, 2, 30, 0)]
+
+        @classmethod
+        def now(cls):
+            cls.t[0] = cls.t[0] + _dt.timedelta(seconds=cls.step[0])
+            return cls.t[0]
+    _versioning.datetime = FakeClock
+    _env['clock'] = FakeClock
     _env['mem'] = sqlo.mem_conn()                 # default: caching connection
     _env['nocache'] = sqlo.mem_conn(cache=False)  # cache=False: only weak references to held instances
     _env['other'] = sqlo.mem_conn()               # a second database, reached through connection= only
@@ -124,6 +140,8 @@ def enc_op(op):
         return 'A %d %d %s' % (op[1], op[2], enc_val(op[3]))
     if op[0] == 'TS':
         return 'S %d %s' % (op[1], enc_kw(op[2]))
+    if op[0] == 'RR':           # the row is changed behind the held instance's back, then a version is restored = the restore
+        return 'R %d' % op[1]
     if op[0] == 'TRA':          # tx assignment, rollback, begin, assignment through the same tx instance, commit = the 2nd one
         return 'A %d %d %s' % (op[1], op[4], enc_val(op[5]))
     if op[0] in SKIP_OPS:
@@ -169,14 +187,14 @@ def norm_case(case):
     return {'mode': mode, 'uniq0': bool(case.get('uniq0', False)), 'ops': ops, 'nomodel': bool(case.get('nomodel', False)),
             'cull': tuple(case['cull']) if case.get('cull') else None,
             'ids': case.get('ids'), 'idlist': list(case.get('idlist') or []), 'sib': bool(case.get('sib')),
-            'noguard': bool(case.get('noguard'))}
+            'noguard': bool(case.get('noguard')), 'conv': bool(case.get('conv')), 'clock': case.get('clock') or 'fwd'}
 
 
 def colname(k):
     return 'c%d' % k if k < NCOLS else 'zz%d' % k
 
 
-def make_class(uniq0, mode, cull=None, ids=None):
+def make_class(uniq0, mode, cull=None, ids=None, conv=False):
     """returns (class, [connection of database 0, connection of database 1 or None], transaction or None)"""
     from sqlobject import SQLObject, IntCol
     from sqlobject.versioning import Versioning
@@ -195,6 +213,11 @@ def make_class(uniq0, mode, cull=None, ids=None):
         kw = {'default': DEFAULTS[k], 'dbName': colname(k)}
         if k == 0 and uniq0:
             kw['unique'] = True
+        if k == CONV_COL and conv:
+            # a column with a custom converting validator (validator2): the program sees Decimal amounts, the row holds
+            # integer cents; the version class must convert in the same way
+            kw['validator2'] = cents_validator()
+            kw['default'] = to_amount(DEFAULTS[k])
         attrs[colname(k)] = IntCol(**kw)
 
     class sqlmeta:
@@ -213,6 +236,45 @@ def make_class(uniq0, mode, cull=None, ids=None):
         trans = base.transaction()
         conns[0] = trans          # every master of the case is bound to the transaction
     return cls, conns, trans
+
+
+CONV_COL = 2
+
+
+def to_amount(v):
+    """model value (stored cents) -> what the program passes / sees for the converting column"""
+    from decimal import Decimal
+    if isinstance(v, bool) or not isinstance(v, int):
+        return v
+    return Decimal(v) / 100
+
+
+def from_amount(v):
+    from decimal import Decimal
+    if isinstance(v, Decimal):
+        c = v * 100
+        return int(c) if c == int(c) else v
+    return v
+
+
+def cents_validator():
+    from decimal import Decimal, InvalidOperation
+    from formencode import validators
+
+    class Cents(validators.Validator):
+        def from_python(self, value, state):
+            if value is None:
+                return None
+            try:
+                return int((Decimal(value) * 100).to_integral_value())
+            except (InvalidOperation, TypeError, ValueError):
+                raise validators.Invalid('not an amount: %r' % (value,), value, state)
+
+        def to_python(self, value, state):
+            if value is None:
+                return None
+            return Decimal(value) / 100
+    return Cents()
 
 
 def make_sibling(conn):
@@ -276,7 +338,21 @@ def run_case(case, oracle=None):
     mode = mode_of(case)
     ids = case.get('ids')
     idlist = case.get('idlist') or []
-    cls, conns, trans = make_class(case['uniq0'], mode, case.get('cull'), ids)
+    conv = bool(case.get('conv'))
+    env()['clock'].step[0] = {'fwd': 1, 'same': 0, 'back': -1}[case.get('clock') or 'fwd']
+    cls, conns, trans = make_class(case['uniq0'], mode, case.get('cull'), ids, conv)
+
+    def pv(k2, v):
+        return to_amount(v) if (conv and k2 == CONV_COL) else v
+
+    def pkw(kw):
+        return {colname(kk): pv(kk, v) for kk, v in kw}
+
+    def rd(o):
+        vals = [getattr(o, colname(c)) for c in range(NCOLS)]
+        if conv:
+            vals[CONV_COL] = from_amount(vals[CONV_COL])
+        return vals
     vcls = cls.versions.versionClass
     ndb0 = 2 if mode == 'twodb' else 1
     # explicit ids: the model numbers the masters of a database 1, 2, 3 ... in creation order
@@ -301,8 +377,8 @@ def run_case(case, oracle=None):
         rows = [dict(tables(cls, conns[d], back[d])[0]) for d in range(ndb)]
         for (d, mid), o in sorted(objs.items()):
             vs = list(o.versions)
-            got = [[getattr(ver, colname(c)) for c in range(NCOLS)] for ver in vs] + [rows[d].get(mid)]
-            shown = [getattr(o, colname(c)) for c in range(NCOLS)]
+            got = [rd(ver) for ver in vs] + [rows[d].get(mid)]
+            shown = rd(o)
             want = rid(d, mid)
             yield (d, mid), got, shown, [(ver.id, ver.masterID) for ver in vs
                                          if ver.masterID != want or type(ver.masterID) is not type(want)]
@@ -335,7 +411,7 @@ def run_case(case, oracle=None):
                     t = conns[d].transaction()
                     try:
                         mt = cls.get(rid(d, op[1]), connection=t)
-                        setattr(mt, colname(op[2]), op[3])
+                        setattr(mt, colname(op[2]), pv(op[2], op[3]))
                     finally:
                         t.rollback()
                         t.begin()
@@ -362,7 +438,7 @@ def run_case(case, oracle=None):
             restored = None
             try:
                 if k == 'C':
-                    kw = {colname(kk): v for kk, v in op[1]}
+                    kw = pkw(op[1])
                     kw.update(kwconn(d))
                     if ids:
                         kw['id'] = idlist[attempts[d] % len(idlist)]
@@ -381,7 +457,7 @@ def run_case(case, oracle=None):
                         out = 'nohandle'
                     else:
                         target = (d, op[1])
-                        setattr(objs[target], colname(op[2]), op[3])
+                        setattr(objs[target], colname(op[2]), pv(op[2], op[3]))
                 elif k == 'TRA':
                     # an assignment through a transaction is rolled back; the transaction begins again and the SAME
                     # transaction-side instance is assigned to and committed: the version must hold the row's real state
@@ -392,10 +468,10 @@ def run_case(case, oracle=None):
                         t = conns[d].transaction()
                         try:
                             mt = cls.get(rid(d, op[1]), connection=t)
-                            setattr(mt, colname(op[2]), op[3])
+                            setattr(mt, colname(op[2]), pv(op[2], op[3]))
                             t.rollback()
                             t.begin()
-                            setattr(mt, colname(op[4]), op[5])
+                            setattr(mt, colname(op[4]), pv(op[4], op[5]))
                             t.commit(close=True)
                         except Exception:
                             t.rollback()
@@ -415,9 +491,9 @@ def run_case(case, oracle=None):
                         try:
                             mt = cls.get(rid(d, op[1]), connection=t)
                             if k == 'T':
-                                setattr(mt, colname(op[2]), op[3])
+                                setattr(mt, colname(op[2]), pv(op[2], op[3]))
                             else:
-                                mt.set(**{colname(kk): v for kk, v in op[2]})
+                                mt.set(**pkw(op[2]))
                             t.commit(close=True)
                         except Exception:
                             t.rollback()
@@ -435,10 +511,15 @@ def run_case(case, oracle=None):
                         out = 'nohandle'
                     else:
                         target = (d, op[1])
-                        objs[target].set(**{colname(kk): v for kk, v in op[2]})
+                        objs[target].set(**pkw(op[2]))
                 else:
                     try:
                         ver = vcls.get(op[1], **kwconn(d))
+                        if k == 'RR' and ver is not None:
+                            # another process / raw SQL changes a column of the master row; the instance the restoring
+                            # side holds still has the old values cached.  restore() must make the ROW equal the version.
+                            conns[d].query('UPDATE %s SET %s = %d WHERE id = %s' % (
+                                cls.sqlmeta.table, colname(op[2]), op[3], conns[d].sqlrepr(ver.masterID)))
                     except Exception as ex:
                         if exc_out(ex) != 'NotFound':
                             raise
@@ -454,7 +535,7 @@ def run_case(case, oracle=None):
                                        % (ver.id, mref, sorted(map(repr, back[d]))), n)
                             mref = back[d].get(mref, mref) if known else ('raw', mref)
                         target = (d, mref)
-                        restored = [getattr(ver, colname(c)) for c in range(NCOLS)]
+                        restored = rd(ver)
                         try:
                             ver.restore()
                         except Exception as ex:
@@ -469,7 +550,7 @@ def run_case(case, oracle=None):
                 continue
             rows = dict(states[d][0])
             resync = False
-            if k == 'R' and restored is not None and target in objs and (out != 'ok' or rows.get(target[1]) != restored):
+            if k in ('R', 'RR') and restored is not None and target in objs and (out != 'ok' or rows.get(target[1]) != restored):
                 if kwconn(d):
                     oracle(KEY_RESTORE_CONN, 'restore of a version of master %s bound to an explicit connection (%s): '
                            'outcome %s, its row is %s, the version held %s' % (target[1], mode, out, rows.get(target[1]), restored), n)
@@ -477,7 +558,7 @@ def run_case(case, oracle=None):
                 elif out == 'ok':
                     oracle('C20:restore-not-equal-version', 'after restore the master row is %s, the version held %s'
                            % (rows.get(target[1]), restored), n)
-            if k == 'R' and target is not None and target not in objs:
+            if k in ('R', 'RR') and target is not None and target not in objs:
                 resync = True        # the version pointed at no known master (already reported): re-read every history
             if out == 'ok' and target is not None and not resync:
                 if k == 'C':
@@ -512,7 +593,7 @@ def run_case(case, oracle=None):
             rows = dict(tables(cls, cls._connection, back[0])[0])
             for (d, mid) in sorted(objs):
                 o = cls.get(rid(d, mid))
-                got = [[getattr(ver, colname(c)) for c in range(NCOLS)] for ver in o.versions] + [rows.get(mid)]
+                got = [rd(ver) for ver in o.versions] + [rows.get(mid)]
                 if oracle is not None and got != hist[(d, mid)]:
                     oracle('C20:versions-not-history', 'after commit master %s: versions+current = %s, history = %s'
                            % (mid, got, hist[(d, mid)]), len(case['ops']))
@@ -607,7 +688,12 @@ def gen_case(rng, clean, mode='mem'):
             ops.append((d, ('S', m, kw)))
             nv[d] += 1
         else:
-            ops.append((d, ('R', rng.randint(1, max(1, nv[d])) if rng.random() < 0.95 else nv[d] + 3)))
+            vid = rng.randint(1, max(1, nv[d])) if rng.random() < 0.95 else nv[d] + 3
+            if rng.random() < 0.3 and mode != 'tx':
+                # the row is changed out of band just before the restore (a column other than the unique one)
+                ops.append((d, ('RR', vid, rng.randint(1, NCOLS - 1), 900 + len(ops))))
+            else:
+                ops.append((d, ('R', vid)))
             nv[d] += 1
             if rng.random() < 0.7:
                 # "held master, restore, then update": the next update must archive the restored values
@@ -615,7 +701,8 @@ def gen_case(rng, clean, mode='mem'):
                 nv[d] += 1
     if mode != 'twodb':
         ops = [op for _, op in ops]
-    case = {'mode': mode, 'uniq0': uniq0, 'ops': ops, 'sib': sibling}
+    case = {'mode': mode, 'uniq0': uniq0, 'ops': ops, 'sib': sibling,
+            'conv': rng.random() < 0.3, 'clock': rng.choice(['fwd', 'fwd', 'fwd', 'same', 'back'])}
     r = rng.random()
     if r < 0.25:
         # string primary keys, mostly numeric look-alikes; the same keys are used in every database of the case
@@ -684,7 +771,8 @@ def run(ctx):
         impl = fmt_results(results)
         nver = sum(len(st[1]) for st in results[-1][1]) if results else 0
         ctx.case((mode, line), nontrivial=nver >= 2, sample={'case': mode + ': ' + line, 'impl': impl[-300:]},
-                 kind='%s/%s-ids/%s/%s' % (mode, case.get('ids') or 'auto', 'unique' if case['uniq0'] else 'plain',
+                 kind='%s/%s-ids/%s%s/clock-%s/%s' % (mode, case.get('ids') or 'auto', 'unique' if case['uniq0'] else 'plain',
+                                    '/converting-validator' if case.get('conv') else '', case.get('clock') or 'fwd',
                                     'failing-update' if any(r[0] in ('Invalid', 'TypeError', 'Duplicate') for r in results) else 'clean'))
         for r in results:
             ctx.count('out:' + r[0])
